@@ -86,16 +86,35 @@ def flatten(cell):
 
 # ----------------------------------------------------------------------------- library objects
 
+def lib_of(info, memo=None):
+    """library cell for a spec cell (ordinary cells only)"""
+    from pytoniq_core.boc.cell import Cell
+    from pytoniq_core.boc.tvm_bitarray import TvmBitarray
+    from bitarray import bitarray
+    return Cell(TvmBitarray(1023, bitarray(info.bits)), [lib_of(k) for k in info.refs], -1)
+
+
 def save_dict_cell(cx, save):
-    """the HashmapE 4 root cell of a save list, built with the library's HashMap (C09's subject) -> node index | None"""
+    """the HashmapE 4 root cell of a save list: the library's HashMap (C09's subject) over values encoded by the
+    schema transcription below (not by vm_stack.py) -> node index | None; Unencodable when a value has no encoding"""
     if not save:
         return None
     from pytoniq_core.boc.hashmap import HashMap
-    V = _lib()[0]
-    hm = HashMap(4, value_serializer=lambda src, dest: dest.store_cell(V.VmStackValue.serialize(src)))
+
+    def ser(d, dest):
+        bits, refs = s_value(cx, d)
+        dest.store_bits(bits)
+        for r in refs:
+            dest.store_ref(lib_of(r))
+    hm = HashMap(4, value_serializer=ser)
     for k, d in save:
-        hm.set_int_key(k, mk_lib(cx, d))
-    return cx.add_cell(hm.serialize())
+        hm.set_int_key(k, d)
+    try:
+        return cx.add_cell(hm.serialize())
+    except Unencodable:
+        raise
+    except Exception as e:          # builder overflow inside the dictionary leaf
+        raise Unencodable(f'save list: {e!r}')
 
 
 def mk_lib(cx, d):
@@ -245,7 +264,10 @@ def canon_ctl(cd, out):
         if not isinstance(save, dict):
             raise NotCanonical('save')
         hm = HashMap(4, value_serializer=lambda src, dest: dest.store_cell(V.VmStackValue.serialize(src)), map_=dict(save))
-        sv = hm.serialize().hash.hex()
+        try:
+            sv = hm.serialize().hash.hex()
+        except Exception as e:
+            raise NotCanonical(f'save list does not serialise: {e!r}')
     else:
         sv = '-'
     if stack is not None and not isinstance(stack, list):
